@@ -18,7 +18,7 @@ LEVEL_TEXT = {
  "C10": "Seeded search; exact NFA language oracles for every listed operation, results read back through the only observer the class has.",
  "C11": "Seeded search over interleaved multi-client histories with aborts; refinement against a private sequential model per handle, re-read through every live handle after every mutating step; this is the simulator's home ground.",
  "C12": "Seeded search over mutator / view histories in which multi-step views are interleaved with mutations and destruction of sharing copies and with read-only observers.",
- "C13": "The single-fault space (truncation points, line drop / duplication / swap, zero tails) of every shipped small text is enumerated completely and fed to the parser and all four loaders; generated texts get strict round trips and their complete single-fault space; byte flips, random strings and splices are sampled.",
+ "C13": "The single-fault space (truncation points, line drop / duplication / swap, zero tails) of every shipped small text is enumerated completely and fed to the parser and all four loaders, and every single-byte substitution (every position x eleven values) of the same texts to the parser and the explicit tree loader; generated texts get strict round trips and their complete single-fault space; byte flips for the other loaders, random strings and splices are sampled.",
  "C14": "Seeded search; the result must equal the model image rule for rule, including destinations that share storage with other handles.",
  "C15": "Seeded search; exact sub-language and non-emptiness oracle for whichever witness the layout-dependent visiting order keeps.",
  "C17": "Seeded search over construction orders in one process-wide node store; truth-table model of every live diagram after every step; canonicity across all handles of all clients.",
